@@ -930,5 +930,5 @@ pub fn first_difference(a: &BTreeMap<String, Value>, b: &BTreeMap<String, Value>
 
 pub fn brief(v: &Value) -> String {
     let s = v.to_string();
-    if s.len() > 600 { format!("{}…({} bytes)", &s[..600], s.len()) } else { s }
+    if s.len() > 600 { format!("{}…({} bytes)", crate::fingerprint::sh(&s, 600), s.len()) } else { s }
 }
